@@ -795,7 +795,7 @@ def run_check(prop, tier, seed):
     if new_viol:
         v = shrink(prop, cfg, new_viol[0], bins_for_shrink=None)
         path = os.path.join(ROOT, "replays", "%s-violation.json" % prop)
-        write_json(path, dict(property=prop, what=v["what"], checker=v.get("checker"), stream=v.get("stream"),
+        write_json(path, dict(property=prop, what=v["what"], checker=v.get("checker"), stream=v.get("stream"), probe=v.get("probe"),
                               case=gen_cases.fmt_case(v["case"]).splitlines() if v.get("case") else None,
                               impl_trace=v.get("impl_trace"), model_trace=v.get("model_trace"),
                               others=len(new_viol) - 1))
@@ -859,19 +859,45 @@ def shrink(prop, cfg, v, bins_for_shrink=None):
 
 def do_replay(prop, path):
     rec = json.load(open(path))
+    stream = rec.get("stream") or ""
     case_lines = rec.get("case") or (rec.get("first_divergence") or {}).get("case")
+    ok, _proofs_ok, log, msgs = build_coq(prop)
+    if not ok:
+        print("the model does not build")
+        return 1
+    out = dict(evaluations=0, distinct_nontrivial=0, overlapping=0, boundary=0, traces_validated_against_impl=0,
+               random_schedules=0, dfs_schedules=0, violations=[], divergences=[], samples=[], sigs=set())
+    if stream == "probes":
+        import c14
+        c14.special(prop, "thorough", 1, {}, out, [])
+        hit = [v for v in out["violations"] if v.get("probe") == rec.get("probe")]
+        for v in hit:
+            print(v["what"])
+            print("\n".join(v.get("impl_trace") or []))
+        print("---- probe %s: %s" % (rec.get("probe"), "still fails" if hit else "passes now"))
+        return 1 if hit else 0
     if not case_lines:
         print(json.dumps(rec, indent=1))
         return 0
     txt = "\n".join(case_lines) + "\n"
     cases = parse_case_text(txt)
-    ok, _proofs_ok, log, msgs = build_coq(prop)
-    if not ok:
-        print("the model does not build")
-        return 1
     c = cases[0]
     profile = "release" if c["env"]["mode"] == "wrapping" else "debug"
     binp, blog = build_harness(profile)
+    if stream in ("twin", "frozen-thread", "allocator", "zst", "multi") and prop in SPECIAL:
+        ONLY[stream] = c
+        problems = []
+        try:
+            SPECIAL[prop](prop, "quick", 1, {"wrapping": binp}, out, problems)
+        finally:
+            ONLY.clear()
+            os.unlink(binp)
+        print("---- case\n" + gen_cases.fmt_case(c))
+        for v in out["violations"] + out["divergences"]:
+            print("---- " + v["what"])
+            print("\n".join(v.get("impl_trace") or []))
+        print("---- %d violation(s), %d divergence(s)" % (len(out["violations"]), len(out["divergences"])))
+        return 1 if (out["violations"] or out["divergences"]) else 0
     mtr = run_model(gen_cases.fmt_case(c))
     mblocks, order = parse_blocks(mtr)
     c["sched"] = sched_of(mblocks[c["id"]])
@@ -888,10 +914,11 @@ def do_replay(prop, path):
     os.unlink(cp)
     print("---- checkers on the implementation trace: %s flags: %s" % (chk, flags))
     iblocks, _ = parse_blocks(itr)
-    d = first_diff(mblocks[c["id"]], iblocks.get(c["id"], []))
+    d = first_diff(mblocks[c["id"]], iblocks.get(c["id"], []), keep_ord=(prop == "C07"))
     print("---- first difference: %s" % (d,))
     bad = any(not ok for r in chk.values() for ok in r.values())
-    return 1 if (bad or d or dead) else 0
+    hang = cfg.get("progress") and any(f.startswith("hang") or f == "incomplete" for fl in flags.values() for f in fl)
+    return 1 if (bad or d or dead or hang) else 0
 
 
 # ------------------------------------------------------------------ texts for the evidence
@@ -912,6 +939,7 @@ ASSUMPTIONS = {}
 LEVELS = {}
 SPECIAL = {}
 extra_coverage = {}
+ONLY = {}     # --replay: stream name -> the one case to run instead of the generated ones
 
 
 def special_c13(prop, tier, seed, bins, out, problems):
@@ -923,6 +951,8 @@ def special_c13(prop, tier, seed, bins, out, problems):
         return
     n = 300 if tier == "quick" else 2500
     cases = [c for c in gen_cases.stream("C13", seed + 31, n, "wrapping") if c["env"]["adaptor"] != "none"]
+    if "twin" in ONLY:
+        cases = [ONLY["twin"]]
     text = "".join(gen_cases.fmt_case(c) for c in cases)
     mblocks, order = parse_blocks(run_model(text))
     by_id = {c["id"]: c for c in cases}
@@ -985,6 +1015,8 @@ def special_c09(prop, tier, seed, bins, out, problems):
         c["freeze"] = [r.below(len(c["progs"])), r.below(8)]
         c["sched"] = None
         cases.append(c)
+    if "frozen-thread" in ONLY:
+        cases = [ONLY["frozen-thread"]]
     itraces, dead = run_impl(binp, cases)
     iblocks, order = parse_blocks(itraces)
     replay = []
@@ -1037,6 +1069,10 @@ def special_c15(prop, tier, seed, bins, out, problems):
         return
     n = 300 if tier == "quick" else 3000
     cases = gen_cases.stream("C15", seed + 51, n, "wrapping")
+    if "allocator" in ONLY:
+        cases = [dict(ONLY["allocator"], id=ONLY["allocator"]["id"].replace("alloc-", ""))]
+    elif "zst" in ONLY:
+        cases = []
     text = "".join(gen_cases.fmt_case(c) for c in cases)
     mblocks, order = parse_blocks(run_model(text))
     by_id = {c["id"]: c for c in cases}
@@ -1093,6 +1129,10 @@ def special_c15(prop, tier, seed, bins, out, problems):
         if r.chance(1, 3):
             c["progs"] = [p[:r.below(2)] for p in c["progs"]]    # consumed not at all / hardly
         zc.append(c)
+    if "zst" in ONLY:
+        zc = [ONLY["zst"]]
+    elif "allocator" in ONLY:
+        zc = []
     ztr, zdead = run_impl(binp, zc)
     zblocks, _ = parse_blocks(ztr)
     zok = 0
@@ -1144,6 +1184,8 @@ def special_c19(prop, tier, seed, bins, out, problems):
                 c["id"] = "corpus-%s-%s" % (name.replace(".case", ""), c["id"])
                 corp.append(c)
     cases = corp + cases
+    if "multi" in ONLY:
+        cases = [ONLY["multi"]]
     itraces, dead = run_impl(binp, cases)
     iblocks, _ = parse_blocks(itraces)
     proj = []          # single-iterator cases, one per iterator of every history
